@@ -57,12 +57,15 @@ CHECKS = {
  "C13": ("bounded symbolic execution of each extension spelling next to its standard spelling / documented reference on symbolic documents and filter contexts",
          "66 pairs covering implicit root and bare names, keys selector, fake root, current key, filter context at depth 1-2, in/contains, =~ with each flag, <>, and/or/not, undefined/missing, nil/none/capitalised literals - in lists, after descendant segments and in nested filters - evaluate identically (values, order, locations) on spines with symbolic leaves.",
          "extension query text is a concrete catalogue; regex subjects pooled"),
+ "C17": ("deterministic structure/fixed-point obligations through the live lexer of subclassed environments plus bounded symbolic execution comparing custom-token, default-token and recompiled queries",
+         "For 18 concrete token assignments (multi-character, prefix-related) x templates using every identifier: the custom spelling compiles to the default query's structure, its string form recompiles to it and is a fixed point, and all three return the same matches on symbolic documents and filter contexts.",
+         "token assignments concrete (they are compiled into the lexer regex); spellings colliding with other syntax excluded"),
 }
 NA = {
  "C18": "process-level I/O (argparse FileType, stdin/stdout, exit status, stderr text): CrossHair's audit wall blocks file access, file contents pass through C json, and what remains is a finite option table whose exploration would be enumeration of concrete runs - no role for a solver",
 }
 ALL = [f"C{n:02d}" for n in range(1, 21)]
-PENDING = "check not built yet in this session (planned: see DESIGN.md section 4)"
+PENDING = "not claimed"
 
 def main():
     here = os.path.dirname(os.path.dirname(os.path.abspath(__file__)))
